@@ -4,6 +4,7 @@
 package main
 
 import (
+	"runtime"
 	"bufio"
 	"crypto/sha1"
 	"encoding/hex"
@@ -147,7 +148,7 @@ func (t *T) safeCheck(in In) (fs []Finding) {
 			if len(msg) > 120 {
 				msg = msg[:120]
 			}
-			fs = []Finding{{Kind: "oracle", Unit: t.U.Name, Class: "panic", Impl: "panic: " + msg}}
+			fs = []Finding{{Kind: "oracle", Unit: t.U.Name, Class: "panic", Impl: "panic: " + msg, Note: panicSite()}}
 		}
 	}()
 	return t.U.Check(t, in)
@@ -412,4 +413,22 @@ func main() {
 	}
 	fmt.Fprintf(os.Stderr, "harness: prop=%s evals=%d distinct_nontrivial=%d model_calls=%d findings=%d (%.1fs)\n",
 		*prop, t.Evals, t.NonTr, m.Calls, len(t.Findings), time.Since(t0).Seconds())
+}
+
+// panicSite names the first frames below the panic that belong to hertz or the harness.
+func panicSite() string {
+	var out []string
+	pcs := make([]uintptr, 40)
+	n := runtime.Callers(3, pcs)
+	fr := runtime.CallersFrames(pcs[:n])
+	for {
+		f, more := fr.Next()
+		if strings.Contains(f.Function, "hertz") || strings.Contains(f.Function, "main.") {
+			out = append(out, fmt.Sprintf("%s:%d", f.Function, f.Line))
+		}
+		if !more || len(out) >= 6 {
+			break
+		}
+	}
+	return strings.Join(out, " <- ")
 }
